@@ -102,6 +102,54 @@ class CanaryClassK3:
         return 7
 
 
+class TripDict(dict):
+    """A mapping (dict subclass) with a private attribute of its own: what to_obj() of a mapping node may be."""
+
+    def __init__(self, *a, **k):
+        dict.__init__(self, *a, **k)
+        object.__setattr__(self, "_x", CANARIES[0])
+        object.__setattr__(self, "_CanaryClassK3__secret", CANARIES[1])
+        object.__setattr__(self, "pub", Inner())
+
+    def __getattribute__(self, name):
+        if _evaluator_is_reading():
+            _log.append({"e": "attr", "name": [ord(c) for c in name], "holder": "tripdict"})
+        return dict.__getattribute__(self, name)
+
+    def __repr__(self):
+        return "tripdict"
+
+
+def _trip_mapping():
+    import collections.abc
+
+    class TripMapping(collections.abc.Mapping):
+        """A mapping that is not a dict (collections.abc.Mapping), tripwired the same way."""
+
+        def __init__(self, d):
+            object.__setattr__(self, "_d", d)
+            object.__setattr__(self, "_x", CANARIES[0])
+            object.__setattr__(self, "pub", Inner())
+
+        def __getattribute__(self, name):
+            if _evaluator_is_reading():
+                _log.append({"e": "attr", "name": [ord(c) for c in name], "holder": "tripmapping"})
+            return object.__getattribute__(self, name)
+
+        def __getitem__(self, k):
+            return object.__getattribute__(self, "_d")[k]
+
+        def __iter__(self):
+            return iter(object.__getattribute__(self, "_d"))
+
+        def __len__(self):
+            return len(object.__getattribute__(self, "_d"))
+
+        def __repr__(self):
+            return "tripmapping"
+    return TripMapping
+
+
 class _ToObj:
     """What MatchUnless needs of a node: to_obj()."""
     def __init__(self, o):
@@ -114,7 +162,7 @@ class _ToObj:
 def environment():
     s, t = CanaryClassK3(), CanaryClassK3()
     return {"s": s, "t": t, "lst": [s, 1], "tup": (s, t), "d": {"k": s, "a": s, 0: s}, "from": s, "to": t, "k": s, "a": s,
-            "n": Inner()}
+            "n": Inner(), "m": TripDict({"k": s, "pub": 1, "name": "v"}), "mp": _trip_mapping()({"k": s, "name": "v"})}
 
 
 _installed = [False]
@@ -257,6 +305,13 @@ def run():
              # look-alikes of the underscore (full-width and presentation forms: NFKC maps them to "_") and of letters
              's.\uff3fx', 's.\ufe33x', 's.\ufe4dx', 's.\uff3f_class__', 'from.\uff3fx', 's.pub.\uff3fx', 's.\u2017x',
              '\uff3fx', 's.\uff3f\uff3fdict\uff3f\uff3f', 'lst[0].\uff3fx', 's.\uff50ub', 's.\u200b_x', 's._\u200bx']
+    # member access on MAPPINGS (plain dict, dict subclass, abc.Mapping): a mapping's keys are data, its attributes are not
+    for base in ("m", "mp", "d", 'm["k"]', "d.get(\"k\")", "mp[\"k\"]"):
+        for mem in ("_x", "__dict__", "_CanaryClassK3__secret", "pub", "pub._x", "k", "k._x", "name", "keys", "keys()", "get",
+                    "items()", "__len__", "__getitem__", "_d", "__doc__", "\uff3fx"):
+            extra.append("%s.%s" % (base, mem))
+    extra += ['"{0._x}".format(m)', 'len(m)', 'm == d', 'list(m)', 'sorted(mp)', 'm.get("k")._x', 'mp.get("k").pub._x', 'd.__class__',
+              'm.__class__', 'mp.__class__.__name__']
     r = rng("c19")
     if t != "quick":
         toks = ["._x", ".pub", ".format", "(", ")", "[", "]", '"{0._x}"', "s", "lst", ",", " ", ".__class__", "getattr", "0"]
